@@ -57,6 +57,9 @@ def parse(text, order):
     m = re.search(r'[Ii]f line %s is more than line %s, subtract line %s from line %s' % (LINE, LINE, LINE, LINE), t)
     if m and m.group(1) == m.group(4) and m.group(2) == m.group(3):
         return ('sub', m.group(4), m.group(3), True)
+    m = re.search(r'[Ss]ubtract line %s from line %s\. If zero or less, enter 0\. If more than zero and not a multiple of \$1,000, enter the next multiple of \$1,000' % (LINE, LINE), t)
+    if m:
+        return ('sub_ceil', m.group(2), m.group(1), 1000)
     m = re.search(r'[Ss]ubtract line %s from line %s\.(.*)$' % (LINE, LINE), t)
     if m:
         rest = m.group(3)
@@ -93,7 +96,7 @@ def lines_of(expr):
     k = expr[0]
     if k == 'add':
         return list(expr[1])
-    if k == 'sub':
+    if k in ('sub', 'sub_ceil'):
         return [expr[1], expr[2]]
     if k in ('mul_rate', 'mul_const', 'min_const', 'carry'):
         return [expr[1]]
